@@ -62,6 +62,52 @@ func (e *Expression) AcceptExpression(expression *Expression) error {
 	return errors.New("Expression already set twice! ")
 }
 
+//compareIntegers compares two integers of any signed or unsigned kind by value: -1, 0 or 1; false if one of them is not an integer
+func compareIntegers(lv, rv reflect.Value) (int, bool) {
+	ls := lv.Kind() >= reflect.Int && lv.Kind() <= reflect.Int64
+	lu := lv.Kind() >= reflect.Uint && lv.Kind() <= reflect.Uint64
+	rs := rv.Kind() >= reflect.Int && rv.Kind() <= reflect.Int64
+	ru := rv.Kind() >= reflect.Uint && rv.Kind() <= reflect.Uint64
+	if !(ls || lu) || !(rs || ru) {
+		return 0, false
+	}
+	if ls && rs {
+		l, r := lv.Int(), rv.Int()
+		if l < r {
+			return -1, true
+		}
+		if l > r {
+			return 1, true
+		}
+		return 0, true
+	}
+	//a negative integer is less than every unsigned one
+	if ls && lv.Int() < 0 {
+		return -1, true
+	}
+	if rs && rv.Int() < 0 {
+		return 1, true
+	}
+	var l, r uint64
+	if ls {
+		l = uint64(lv.Int())
+	} else {
+		l = lv.Uint()
+	}
+	if rs {
+		r = uint64(rv.Int())
+	} else {
+		r = rv.Uint()
+	}
+	if l < r {
+		return -1, true
+	}
+	if l > r {
+		return 1, true
+	}
+	return 0, true
+}
+
 func (e *Expression) Evaluate(dc *context.DataContext, Vars map[string]reflect.Value) (reflect.Value, error) {
 
 	//priority to calculate single value
@@ -196,6 +242,11 @@ func (e *Expression) Evaluate(dc *context.DataContext, Vars map[string]reflect.V
 				case "float32", "float64":
 					rr = frv.Float()
 					break
+				}
+
+				//two integers are compared exactly: float64 can't represent every 64-bit integer
+				if c, ok := compareIntegers(flv, frv); ok {
+					ll, rr = float64(c), 0
 				}
 
 				switch e.ComparisonOperator {
